@@ -51,7 +51,7 @@ def dump_history(chk, program, consts, sf, cf):
             want = 1 if mid == ID else 0
             chk.check(status == 'returned' and w == want, 'DUMP-GUARD', f"history::{'-'.join('named' if x == ID else 'other' for x in order)}::step{k + 1}", file=DEC, line=fn.lineno, func='_call_decode_function',
                       expected=f"returned, {want} dump line(s) (the dump filter names the id {ID})", found={'status': status, 'lines': w},
-                      detail='' if (status == 'returned' and w == want) else 'the dump decision of one message depends on the messages seen before it (a verdict remembered per PGN number)')
+                      detail='' if (status == 'returned' and w == want) else 'the dump decision for this message is wrong at this point of the history (a verdict remembered from an earlier message of that PGN number, or an id test that does not match the id as the filter stores it)')
 
 def run(chk, program, tier):
     for r, t in (('DUMP-GUARD', 'dump decision table'), ('DUMP-NORM', 'LOWER probe against the lower-cased dump id list'), ('DUMP-TEXT', 'json + newline, append mode, closed'),
